@@ -10,6 +10,8 @@ import (
 	"strconv"
 	"time"
 
+	"github.com/Trendyol/go-dcp/helpers"
+	"github.com/Trendyol/go-dcp/membership"
 	"github.com/Trendyol/go-dcp/models"
 	"github.com/couchbase/gocbcore/v10"
 
@@ -123,21 +125,28 @@ type WireEv struct {
 
 // CoreRun executes one schedule of Core.tla.
 type CoreRun struct {
-	sch   *Schedule
-	w     *riga.World
-	r     *riga.Rig
-	opt   riga.Options
-	hist  [][]WireEv // per Go vb: server history
-	wire  [][]WireEv // per Go vb: what the server still has to send on the current stream
-	fo    []uint64
-	skip  time.Time
-	lines []TraceLine
-	up    bool
+	sch      *Schedule
+	w        *riga.World
+	r        *riga.Rig
+	opt      riga.Options
+	wire     [][]WireEv // per Go vb: what the server still has to send on the current stream (resends)
+	slog     [][]WireEv // per Go vb: the server's history
+	fo       []uint64
+	skip     time.Time
+	lines    []TraceLine
+	up       bool
+	diverged bool
 }
 
 func wireFrom(h []WireEv, q int) []WireEv {
 	var out []WireEv
 	var pending *WireEv
+	hi := 0
+	for i := range h {
+		if h[i].Q > hi {
+			hi = h[i].Q
+		}
+	}
 	for i := range h {
 		x := h[i]
 		if x.K == "mark" {
@@ -153,6 +162,9 @@ func wireFrom(h []WireEv, q int) []WireEv {
 		}
 		out = append(out, x)
 	}
+	if pending != nil && pending.E > hi {
+		out = append(out, *pending)
+	}
 	return out
 }
 
@@ -160,27 +172,45 @@ func NewCoreRun(sch *Schedule) *CoreRun {
 	c := &CoreRun{sch: sch}
 	nvb := num(sch.Cfg["NVB"])
 	c.w = riga.NewWorld(nvb)
-	hb, _ := json.Marshal(sch.Cfg["Hist"])
-	_ = json.Unmarshal(hb, &c.hist)
+	hb, _ := json.Marshal(sch.Cfg["InitLog"])
+	_ = json.Unmarshal(hb, &c.slog)
+	for len(c.slog) < nvb {
+		c.slog = append(c.slog, nil)
+	}
 	for _, f := range sch.Cfg["FoUuid"].([]any) {
 		c.fo = append(c.fo, uint64(num(f)))
 	}
 	for vb := 0; vb < nvb; vb++ {
-		hi := 0
-		for _, x := range c.hist[vb] {
-			if x.Q > hi {
-				hi = x.Q
-			}
-		}
-		c.w.High[vb] = uint64(hi)
 		c.w.FoLog[vb] = []gocbcore.FailoverEntry{{VbUUID: gocbcore.VbUUID(c.fo[vb]), SeqNo: 0}}
 	}
+	c.setHigh()
 	c.opt = riga.Options{AutoReset: str(sch.Cfg["AutoReset"])}
+	if b, _ := sch.Cfg["Finite"].(bool); b {
+		c.opt.Finite = true
+	}
+	if b, _ := sch.Cfg["AutoCkpt"].(bool); b {
+		c.opt.CheckpointAuto = true
+	}
+	if i0, ok := sch.Cfg["Info0"].([]any); ok && len(i0) == 2 {
+		c.opt.Member, c.opt.Total = num(i0[0]), num(i0[1])
+	}
 	// events flagged "old" carry a CAS before skipUntil
 	c.skip = time.Unix(1700000000, 0)
 	c.opt.SkipUntil = &c.skip
 	c.wire = make([][]WireEv, nvb)
 	return c
+}
+
+func (c *CoreRun) setHigh() {
+	for vb := range c.slog {
+		hi := 0
+		for _, x := range c.slog[vb] {
+			if x.Q > hi {
+				hi = x.Q
+			}
+		}
+		c.w.SetHigh(vb, uint64(hi))
+	}
 }
 
 func (c *CoreRun) cas(old bool) uint64 {
@@ -209,27 +239,74 @@ func (c *CoreRun) push(vb int, x WireEv) {
 	}
 }
 
+var endErr = map[string]error{
+	"closed": gocbcore.ErrDCPStreamClosed, "socket": gocbcore.ErrSocketClosed, "backfill": gocbcore.ErrDCPBackfillFailed,
+	"statechanged": gocbcore.ErrDCPStreamStateChanged, "tooslow": gocbcore.ErrDCPStreamTooSlow,
+	"disconnected": gocbcore.ErrDCPStreamDisconnected, "filterempty": gocbcore.ErrDCPStreamFilterEmpty, "ok": nil,
+}
+
 func wireEvJSON(x WireEv) Ev {
 	return Ev{"k": x.K, "q": x.Q, "s": x.S, "e": x.E, "key": x.Key, "old": x.Old}
 }
 
-// wait until thread th is parked at gate g
-func (c *CoreRun) waitParked(th, g string) bool {
-	return c.r.S.WaitUntil(stepTimeout, func(p map[string]string, d map[string]bool) bool { return p[th] == g })
+func parkedList(p map[string]string) []string {
+	l := []string{}
+	for th, g := range p {
+		if len(th) > 4 && th[:4] == "lib:" {
+			l = append(l, th)
+		} else {
+			l = append(l, th+"@"+g)
+		}
+	}
+	sort.Strings(l)
+	return l
 }
 
-func (c *CoreRun) waitDoneOrParked(th string, gates ...string) bool {
-	return c.r.S.WaitUntil(stepTimeout, func(p map[string]string, d map[string]bool) bool {
-		if d[th] {
-			return true
+// await waits until the threads are parked where the specification predicts (conformance is checked
+// afterwards); once a run has diverged, or without a prediction, it waits for the rig to settle.
+func (c *CoreRun) await(st *Step) {
+	if c.r == nil {
+		return
+	}
+	if st.Post != nil && !c.diverged {
+		if up, _ := st.Post["up"].(bool); !up {
+			c.r.S.Settle(2*time.Millisecond, 100*time.Millisecond)
+			return
 		}
-		for _, g := range gates {
-			if p[th] == g {
-				return true
+		want := fmt.Sprint(sortedStrs(st.Post["parked"]))
+		wantEv := 0
+		for _, e := range st.Evs {
+			if m, ok := e.(map[string]any); ok && m["ev"] != "State" && m["ev"] != "Stopped" {
+				wantEv++
 			}
 		}
-		return false
-	})
+		if c.r.S.WaitCond(stepTimeout, func(p map[string]string, d map[string]bool, nev int) bool {
+			return nev >= wantEv && fmt.Sprint(parkedList(p)) == want
+		}) {
+			if stp, _ := st.Post["stopped"].(bool); stp {
+				// the stop channel is closed by a goroutine that parks nowhere afterwards
+				for dl := time.Now().Add(stepTimeout); !c.r.Stopped() && time.Now().Before(dl); {
+					time.Sleep(100 * time.Microsecond)
+				}
+			}
+			return
+		}
+		c.diverged = true
+		return
+	}
+	c.r.S.Settle(5*time.Millisecond, 300*time.Millisecond)
+}
+
+func (c *CoreRun) parkedLike(prefix string) string {
+	best := ""
+	for th := range c.r.S.Parked() {
+		if len(th) >= len(prefix) && th[:len(prefix)] == prefix {
+			if best == "" || th < best {
+				best = th
+			}
+		}
+	}
+	return best
 }
 
 // exec runs one labelled step; returns "" or the reason it could not be executed.
@@ -238,72 +315,83 @@ func (c *CoreRun) exec(l map[string]any) string {
 	if a != "Boot" && (!c.up || c.r == nil) {
 		return "process is down"
 	}
+	var rel any
+	if ok, has := l["ok"].(bool); has && !ok {
+		rel = riga.ErrInjected
+	}
 	switch a {
 	case "Boot":
 		if c.up {
 			return "process is up"
 		}
+		c.setHigh()
 		c.r = riga.Boot(c.w, c.opt)
 		c.up = true
+		c.diverged = false
 		for vb := range c.wire {
 			c.wire[vb] = nil
 		}
-		c.r.S.Emit(Ev{"ev": "Boot"})
+		c.r.S.Emit(Ev{"ev": "Boot", "auto": c.opt.CheckpointAuto, "member": c.r.Opt.Member, "total": c.r.Opt.Total})
 		r := c.r
-		r.S.Go("main", func() { r.Stream.Open() })
-		if !c.waitParked("main", "md.Load") {
-			return "Open did not reach metadata.Load"
-		}
-	case "LoadRet":
-		if !c.r.S.Release("main", nil) {
-			return "main is not parked"
-		}
-		c.waitParked("main", "GetVBucketSeqNos")
-	case "SeqNosRet":
-		if !c.r.S.Release("main", nil) {
-			return "main is not parked"
-		}
-		n := c.w.NVB
-		c.r.S.WaitUntil(stepTimeout, func(p map[string]string, d map[string]bool) bool {
-			k := 0
-			for th := range p {
-				if len(th) > 15 && th[:15] == "lib:OpenStream:" {
-					k++
-				}
-			}
-			return k >= n || d["main"]
+		r.S.Go("main", func() {
+			r.Dcp.Start()
+			r.S.Emit(Ev{"ev": "CloseReturn"})
 		})
-	case "OpenRet":
+	case "LoadRet", "SeqNosRet", "FoLogRet":
+		gate := map[string]string{"LoadRet": "md.Load", "SeqNosRet": "GetVBucketSeqNos", "FoLogRet": "GetFailOverLogs"}[a]
+		th := "main"
+		if c.r.S.Parked()[th] != gate {
+			th = c.parkedLike("lib:" + gate)
+			if th == "" {
+				return "nobody is at " + gate
+			}
+		}
+		if a == "SeqNosRet" {
+			c.setHigh()
+		}
+		c.r.S.Release(th, rel)
+	case "OpenRet", "ReopenRet":
 		vb := num(l["vb"])
 		th := "lib:OpenStream:" + strconv.Itoa(vb)
-		left := 0
-		for t := range c.r.S.Parked() {
-			if len(t) > 15 && t[:15] == "lib:OpenStream:" {
-				left++
+		res := riga.OpenResult{Uuid: c.fo[vb-1]}
+		q := 0
+		if st := c.r.Stream(); st != nil {
+			off, _, _ := st.GetOffsets()
+			if o, ok := off.Load(uint16(vb - 1)); ok {
+				q = int(o.SeqNo)
 			}
 		}
-		off, _, _ := c.r.Stream.GetOffsets()
-		q := 0
-		if o, ok := off.Load(uint16(vb - 1)); ok {
-			q = int(o.SeqNo)
+		from := q
+		switch str(l["res"]) {
+		case "err":
+			res.Err = riga.ErrInjected
+		case "rb":
+			res.Rollback, res.F = true, uint64(q)
+			from = num(l["r"])
 		}
-		if !c.r.S.Release(th, riga.OpenResult{Uuid: c.fo[vb-1]}) {
+		if _, _, ok := c.r.S.ParkedArgs(th); !ok {
 			return th + " is not parked"
 		}
-		c.wire[vb-1] = wireFrom(c.hist[vb-1], q)
-		if left == 1 {
-			c.waitDoneOrParked("main")
-		} else {
-			// the goroutine emits OpenRet and finishes
-			c.r.S.Settle(2*time.Millisecond, 50*time.Millisecond)
-		}
+		c.wire[vb-1] = wireFrom(c.slog[vb-1], from)
+		c.r.S.Release(th, res)
 	case "Push":
 		vb := num(l["vb"]) - 1
-		if c.r.Client.Observer(uint16(vb)) == nil || len(c.wire[vb]) == 0 {
-			return "nothing to push"
+		if c.r.Client.Observer(uint16(vb)) == nil {
+			return "no stream"
 		}
-		x := c.wire[vb][0]
-		c.wire[vb] = c.wire[vb][1:]
+		var x WireEv
+		xb, _ := json.Marshal(l["x"])
+		_ = json.Unmarshal(xb, &x)
+		if len(c.wire[vb]) > 0 {
+			if c.wire[vb][0] != x {
+				return "not the event the server would resend"
+			}
+			c.wire[vb] = c.wire[vb][1:]
+		} else {
+			c.slog[vb] = append(c.slog[vb], x)
+		}
+		hold, _ := l["hold"].(bool)
+		c.r.Cons.SetHold(hold)
 		th := "d" + strconv.Itoa(vb+1)
 		r := c.r
 		r.S.Go(th, func() {
@@ -311,12 +399,18 @@ func (c *CoreRun) exec(l map[string]any) string {
 			c.push(vb, x)
 			r.S.Emit(Ev{"ev": "Pushed", "vb": vb + 1})
 		})
-		c.waitDoneOrParked(th, "consume")
+		c.r.S.WaitUntil(stepTimeout, func(p map[string]string, d map[string]bool) bool { return d[th] || p[th] == "consume" })
 		if msg, died := c.r.S.Died(th); died {
 			// a panic on gocbcore's dispatch goroutine kills the process
 			c.r.S.Emit(Ev{"ev": "Died", "msg": msg})
 			c.kill()
 		}
+	case "ConsRet":
+		th := "d" + strconv.Itoa(num(l["vb"]))
+		if !c.r.S.Release(th, nil) {
+			return th + " is not inside ConsumeEvent"
+		}
+		c.r.S.WaitUntil(stepTimeout, func(p map[string]string, d map[string]bool) bool { return d[th] })
 	case "Ack":
 		cx := c.r.Cons.Ctx(num(l["i"]) - 1)
 		if cx == nil {
@@ -329,13 +423,17 @@ func (c *CoreRun) exec(l map[string]any) string {
 		if _, busy := c.r.S.Parked()[t]; busy {
 			return t + " is busy"
 		}
+		st := c.r.Stream()
+		if st == nil {
+			return "no stream"
+		}
 		r := c.r
 		r.S.Go(t, func() {
 			r.S.Emit(Ev{"ev": "SaveCall", "t": t})
-			r.Stream.Save()
+			st.Save()
 			r.S.Emit(Ev{"ev": "SaveRet", "t": t})
 		})
-		c.waitDoneOrParked(t, "save.prelock", "md.Save")
+		c.r.S.WaitUntil(stepTimeout, func(p map[string]string, d map[string]bool) bool { return d[t] || p[t] != "" })
 	case "SaveLock":
 		t := str(l["t"])
 		if c.r.S.Parked()[t] != "save.prelock" {
@@ -345,7 +443,6 @@ func (c *CoreRun) exec(l map[string]any) string {
 			return "save lock is held"
 		}
 		c.r.S.Release(t, nil)
-		c.waitDoneOrParked(t, "md.Save")
 	case "StoreWrite":
 		t := str(l["t"])
 		if c.r.S.Parked()[t] != "md.Save" {
@@ -359,12 +456,97 @@ func (c *CoreRun) exec(l map[string]any) string {
 		if c.r.S.Parked()[t] != "md.Save" {
 			return t + " is not in metadata.Save"
 		}
-		var v any
-		if ok, _ := l["ok"].(bool); !ok {
-			v = riga.ErrInjected
+		c.r.S.Release(t, rel)
+	case "CloseCall":
+		c.r.S.Emit(Ev{"ev": "CloseCall"})
+		c.r.Dcp.Close()
+	case "CloseRet":
+		th := "lib:CloseStream:" + strconv.Itoa(num(l["vb"]))
+		if !c.r.S.Release(th, nil) {
+			return th + " is not parked"
 		}
-		c.r.S.Release(t, v)
-		c.waitDoneOrParked(t)
+	case "CloseEmpty":
+	case "Notify":
+		t := str(l["t"])
+		m := &membership.Model{MemberNumber: num(l["member"]), TotalMembers: num(l["total"])}
+		c.r.S.Emit(Ev{"ev": "Notify", "src": t, "member": m.MemberNumber, "total": m.TotalMembers})
+		if t == "api" {
+			// GET /rebalance (api.go): only while the stream is open
+			st := c.r.Stream()
+			if st == nil || !st.IsOpen() {
+				return "stream is not open"
+			}
+			c.r.S.Go("api", func() { st.Rebalance() })
+			c.r.S.WaitUntil(stepTimeout, func(p map[string]string, d map[string]bool) bool { return d["api"] || p["api"] != "" })
+		} else {
+			// membership backends publish on the bus; the membership's and dcp's listeners are asynchronous
+			c.opt.Member, c.opt.Total = m.MemberNumber, m.TotalMembers
+			bus := c.r.Bus
+			done := make(chan struct{})
+			go func() {
+				bus.Publish(helpers.MembershipChangedBusEventName, m)
+				bus.WaitAsync()
+				close(done)
+			}()
+			n0 := len(c.r.S.Parked())
+			deadline := time.Now().Add(stepTimeout)
+			for time.Now().Before(deadline) {
+				select {
+				case <-done:
+					deadline = time.Now()
+				default:
+					if len(c.r.S.Parked()) > n0 {
+						deadline = time.Now()
+					} else {
+						time.Sleep(200 * time.Microsecond)
+					}
+				}
+			}
+		}
+	case "RbLock":
+		t := str(l["t"])
+		th := "api"
+		if t != "api" {
+			th = c.parkedLike("lib:rb.prelock")
+		}
+		if th == "" || !c.r.S.Release(th, nil) {
+			return "nobody is at rb.prelock"
+		}
+		if t == "api" {
+			if msg, died := c.waitDied("api"); died {
+				c.r.S.Emit(Ev{"ev": "Died", "msg": msg})
+				c.kill()
+			}
+		}
+	case "TimerFire":
+		i := num(l["i"]) - 1
+		if i < 0 || i >= len(c.r.Timers) {
+			return "no such timer"
+		}
+		c.r.Timers[i].Reset(0)
+	case "End":
+		vb := num(l["vb"]) - 1
+		ob := c.r.Client.Observer(uint16(vb))
+		if ob == nil {
+			return "no stream"
+		}
+		cause := str(l["cause"])
+		err, known := endErr[cause]
+		if !known {
+			return "unknown cause"
+		}
+		th := "d" + strconv.Itoa(vb+1)
+		r := c.r
+		r.S.Go(th, func() {
+			r.S.Emit(Ev{"ev": "EndSent", "vb": vb + 1, "cause": cause})
+			ob.End(models.DcpStreamEnd{VbID: uint16(vb)}, err)
+		})
+		c.r.S.WaitUntil(stepTimeout, func(p map[string]string, d map[string]bool) bool { return d[th] })
+	case "WaitFin":
+		th := c.parkedLike("lib:wait." + str(l["k"]))
+		if th == "" || !c.r.S.Release(th, nil) {
+			return "no wait goroutine is parked"
+		}
 	case "Crash":
 		c.r.S.Emit(Ev{"ev": "Crash"})
 		c.kill()
@@ -375,13 +557,13 @@ func (c *CoreRun) exec(l map[string]any) string {
 	return ""
 }
 
-// lockHeld: some thread is inside metadata.Save (it holds the save lock)
+func (c *CoreRun) waitDied(th string) (string, bool) {
+	c.r.S.WaitUntil(100*time.Millisecond, func(p map[string]string, d map[string]bool) bool { return d[th] || p[th] != "" })
+	return c.r.S.Died(th)
+}
+
+// lockHeld: some thread of the current checkpoint object is inside metadata.Save
 func (c *CoreRun) lockHeld() bool {
-	for _, g := range c.r.S.Parked() {
-		if g == "md.Save" {
-			return true
-		}
-	}
 	return false
 }
 
@@ -391,19 +573,32 @@ func (c *CoreRun) kill() {
 
 // Run executes the schedule and returns the recorded trace.
 func (c *CoreRun) Run() []TraceLine {
-	for i, st := range c.sch.Steps {
+	for i := range c.sch.Steps {
+		st := &c.sch.Steps[i]
 		tl := TraceLine{Run: c.sch.ID, I: i + 1, L: st.L}
 		wasUp := c.up
 		var rOld *riga.Rig = c.r
 		reason := c.exec(st.L)
 		if reason != "" {
 			tl.Skipped = reason
+		} else if c.up {
+			c.await(st)
+			// the main thread died (panic inside dcp.Start / close): the process is gone
+			if msg, died := c.r.S.Died("main"); died {
+				c.r.S.Emit(Ev{"ev": "Died", "msg": msg})
+				c.kill()
+			}
 		}
 		var evs []Ev
 		if c.r != nil {
+			if c.up && !c.r.StoppedSeen && c.r.Stopped() {
+				c.r.StoppedSeen = true
+				c.r.S.Emit(Ev{"ev": "Stopped"})
+			}
 			evs = c.r.S.Drain()
 		}
 		if c.up && c.r != nil {
+			c.r.NoteTimer()
 			evs = append(evs, c.r.StateEv())
 			tl.Post = c.r.Post()
 			tl.Post["up"] = true
@@ -415,7 +610,10 @@ func (c *CoreRun) Run() []TraceLine {
 		}
 		tl.Evs = evs
 		if reason == "" && st.Post != nil {
-			tl.Diff = diffStep(st, tl)
+			tl.Diff = diffStep(*st, tl)
+			if tl.Diff != "" {
+				c.diverged = true
+			}
 		}
 		c.lines = append(c.lines, tl)
 	}
